@@ -221,7 +221,32 @@ pub fn simple_h2(r: &mut Rng, id: u64, hostile: bool) -> (Vec<u8>, Vec<u8>) {
             _ => block.extend_from_slice(&[0xbf, 0xc0]), // indexed 63, 64 (may not exist)
         }
     }
-    req.extend(frame(1, 0x05, 1, &block));
+    if hostile && r.chance(1, 3) {
+        // PADDED and/or PRIORITY framing whose Pad Length does not fit what is left of the
+        // payload (hostile: the frame is malformed, everything else on the analyzer must go on)
+        let padded = r.chance(3, 4);
+        let prio = r.chance(3, 4);
+        let mut payload = Vec::new();
+        if padded {
+            let full = block.len() + 1 + if prio { 5 } else { 0 };
+            let pl = match r.below(5) {
+                0 => full.saturating_sub(1 + r.usize(7)),
+                1 => full,
+                2 => block.len(),
+                3 => 255,
+                _ => r.usize(full + 2),
+            };
+            payload.push(pl.min(255) as u8);
+        }
+        if prio {
+            payload.extend_from_slice(&[0x80, 0, 0, 0, 200]);
+        }
+        payload.extend_from_slice(&block);
+        let fl = 0x05 | if padded { 0x08 } else { 0 } | if prio { 0x20 } else { 0 };
+        req.extend(frame(1, fl, 1, &payload));
+    } else {
+        req.extend(frame(1, 0x05, 1, &block));
+    }
     let mut res = frame(4, 0, 0, &[]);
     let mut rb = vec![0x88]; // :status 200
     let srv: &str = *r.pick(&["nginx", "h2o/2.2.6", "envoy"]);
@@ -323,6 +348,15 @@ pub fn ep_for(r: &mut Rng, id: u64, v6: bool) -> Endpoints {
             Endpoints::v4(a, cport, a, sport)
         };
     }
+    if v6 && r.chance(1, 8) {
+        // IPv4-mapped IPv6 endpoints: IPv6 packets, to be reported with their IPv6 addresses
+        return Endpoints {
+            client: format!("::ffff:10.{}.{}.{}", 1 + (id >> 16) % 200, (id >> 8) & 0xff, id & 0xff).parse().unwrap(),
+            server: format!("::ffff:172.16.{}.{}", id % 250, 1 + id % 200).parse().unwrap(),
+            cport,
+            sport,
+        };
+    }
     if v6 {
         Endpoints {
             client: format!("2001:db8:a::{:x}", 1 + id % 0xfffe).parse().unwrap(),
@@ -374,6 +408,17 @@ pub fn gen_conn_ep(r: &mut Rng, id: u64, kind: Kind, base: u64, ep: Option<Endpo
         Link::Ethernet
     };
     let mut s = Script::new(ep.clone(), link, r.u32(), r.u32());
+    if r.chance(1, 5) {
+        // per-packet IPv6 flow labels / IPv4 identification values on the data segments
+        s.vary_ip.set(r.next_u64() | 1);
+    }
+    if r.chance(1, 12) {
+        // every packet is a "first fragment" (More Fragments set, offset 0) holding the whole segment
+        s.v4_flags = Some(0b001);
+    } else if r.chance(1, 10) {
+        // IP options come and go between the packets of the connection
+        s.v4_opt_alt = true;
+    }
     let tsc = r.u32();
     let tss = r.u32();
     let with_ts = r.chance(2, 3);
